@@ -847,6 +847,7 @@ def coverage(agg):
         'samples': agg['samples'] or [{'note': 'no sampled run in this batch'}],
         'simulated_runs': agg['runs'],
         'simulated_steps_total': agg['steps'],
+        'simulated_virtual_seconds': round(agg['steps'] * 1e-6, 3),
         'rule_body_starts_recorded': c.get('rule_body_starts', 0),
         'references_served_from_memo': c.get('references_served_from_memo', 0),
         'answers_compared_by_identity': c.get('answers_checked', 0),
